@@ -891,7 +891,13 @@ theorem leaf_ok (s : Snap) (data : MsgId → MsgData) (dec : Bytes → Option By
     rw [htop] at hst
     obtain ⟨ivs, hivs, hc⟩ := resolveAll_spec (resolveUID s) last.uid set (by
       intro x h0 h1
-      simp only [resolveUID, hlast, numVal]
+      have hlen : s.length ≠ 0 := fun h => hne (List.eq_nil_of_length_eq_zero h)
+      have hidx : SeqSet.goIndex s ((s.length : Int) - 1) = .ok last := by
+        have hget : s[s.length - 1]? = some last := by rw [← List.getLast?_eq_getElem?]; exact hlast
+        have hnn : ¬ ((s.length : Int) - 1 < 0) := by omega
+        have htn : ((s.length : Int) - 1).toNat = s.length - 1 := by omega
+        simp only [SeqSet.goIndex, hnn, if_false, htn, hget]
+      simp only [resolveUID, hlen, if_false, hidx, numVal]
       split
       · simp
       · rw [toU32_small h0 h1]) hsm hst
